@@ -173,6 +173,8 @@ def random_spec(rng, struct):
              "mu2": [u(0.0, 1.0), u(0.5, 1.5)], "sigma2": [u(0.5, 1.5)]}
     elif struct == "indep3":
         p = {"d0": [u(1.5, 3.0), u(1.2, 1.8), u(0.0, 1.0)], "d1": [u(0.5, 2.0), u(0.2, 0.6)], "d2": [u(-1.0, 1.0), u(0.5, 2.0)]}
+    elif struct == "fixfirst2":  # conditional_on = [None, 0]; the FIRST parameter of the conditional variable is fixed, the second dependent
+        p = {"d0": [u(1.5, 3.0), u(1.2, 1.8), u(0.3, 1.0)], "mu1": [u(0.6, 1.2)], "sigma1": [u(0.2, 0.4), u(0.1, 0.3)]}
     else:
         raise ValueError(struct)
     return {"struct": struct, "params": p}
@@ -232,6 +234,11 @@ def build_model(spec):
         dd = [{"distribution": ExponentiatedWeibullDistribution(*p["d0"])},
               {"distribution": WeibullDistribution(*p["d1"])},
               {"distribution": NormalDistribution(), "conditional_on": 1, "parameters": {"mu": mu, "sigma": sg}}]
+    elif s == "fixfirst2":
+        sg = DependenceFunction(_lin2)
+        _set(sg, p["sigma1"])
+        dd = [{"distribution": WeibullDistribution(*p["d0"]), "intervals": WidthOfIntervalSlicer(0.5)},
+              {"distribution": LogNormalDistribution(f_mu=p["mu1"][0]), "conditional_on": 0, "parameters": {"sigma": sg}}]
     elif s == "indep3":
         dd = [{"distribution": WeibullDistribution(*p["d0"])}, {"distribution": LogNormalDistribution(*p["d1"])},
               {"distribution": NormalDistribution(*p["d2"])}]
